@@ -1063,7 +1063,7 @@ var c06Controls = []Control{
 	{Name: "fill-skips-prefix-without-length-test", Rule: "R06k", WantKey: "fill#cursor store", File: "syntax/lexer.go",
 		Mutate: ctlReplaceAnywhere("\tp.bsp = 0\n\treturn n\n", "\tp.bsp = 0\n\tif p.offs == 0 && left == 0 && n >= 3 && p.bs[0] == 0xef {\n\t\tp.bsp = 3\n\t}\n\treturn n\n")},
 	{Name: "rune-indexes-without-refill-test", Rule: "R06k", WantKey: "rune#p.bs[p.bsp]", File: "syntax/lexer.go",
-		Mutate: ctlReplaceAnywhere("if p.bsp >= uint(len(p.bs)) && p.fill() == 0 {\n\t\tif len(p.bs) == 0 {", "if p.bsp > uint(len(p.bs)) && p.fill() == 0 {\n\t\tif len(p.bs) == 0 {")},
+		Mutate: ctlReplaceAnywhere("if p.bsp >= uint(len(p.bs)) && p.fill() == 0 {\n\t\t// Necessary for the last position", "if p.bsp > uint(len(p.bs)) && p.fill() == 0 {\n\t\t// Necessary for the last position")},
 	{Name: "stmtsseq-yields-after-stop", Rule: "R06j", WantKey: "StmtsSeq#iterator literal", File: "syntax/parser.go",
 		Mutate: ctlReplaceAnywhere("\t\tif stopped {\n\t\t\treturn // yield must not be called again\n\t\t}\n", "")},
 	{Name: "interactiveseq-ignores-reader-stop", Rule: "R06j", WantKey: "InteractiveSeq#iterator literal", File: "syntax/parser.go",
